@@ -18,7 +18,6 @@ import (
 	"github.com/polynetwork/poly/consensus/vbft"
 	vconfig "github.com/polynetwork/poly/consensus/vbft/config"
 	"github.com/polynetwork/poly/core/payload"
-	"github.com/polynetwork/poly/core/signature"
 	"github.com/polynetwork/poly/core/types"
 
 	"verif/harness/ev"
@@ -60,12 +59,24 @@ func signHashV(pos int, h common.Uint256, v int) []byte {
 	if v, ok := sigCache.Load(k); ok {
 		return append([]byte(nil), v.([]byte)...)
 	}
-	s, err := signature.Sign(acct(pos), h[:])
+	s := signBytes(pos, h[:])
+	sigCache.Store(k, s)
+	return append([]byte(nil), s...)
+}
+
+// signBytes signs data with the key of participant pos using ontology-crypto directly (not the
+// node's core/signature wrapper), SHA256withECDSA, serialised in the library's wire form.
+func signBytes(pos int, data []byte) []byte {
+	a := acct(pos)
+	sg, err := osig.Sign(a.SigScheme, a.PrivateKey, data, nil)
 	if err != nil {
 		panic("harness: sign: " + err.Error())
 	}
-	sigCache.Store(k, s)
-	return append([]byte(nil), s...)
+	b, err := osig.Serialize(sg)
+	if err != nil {
+		panic("harness: serialize signature: " + err.Error())
+	}
+	return b
 }
 
 // sigOK is the harness's own verification path (ontology-crypto directly).
@@ -130,7 +141,9 @@ func mkTypesBlock(s hdrSpec, info *vconfig.VbftBlockInfo, txs []*types.Transacti
 		Timestamp: s.Timestamp, Height: s.Height, ConsensusData: s.ConsData, ConsensusPayload: pl, NextBookkeeper: nb}
 	b := &types.Block{Header: h, Transactions: txs}
 	if signer >= 0 {
-		hash := b.Hash()
+		// signed over the harness's OWN header digest (refHeaderHash, written from the block format),
+		// so a deviation of the node's digest shows up as a genuine message that does not verify
+		hash := refHeaderHash(h)
 		h.Bookkeepers = []keypair.PublicKey{pubOf(signer)}
 		h.SigData = [][]byte{signHash(signer, hash)}
 	}
